@@ -45,7 +45,8 @@ FLOORS = {'*': {**{f'outcome:{o}:{p}': 10 for o in _OUT for p in ('first', 'midd
                 'kind:notification': 30, 'kind:batch': 100, 'kind:single': 100, 'client:sync': 300, 'client:async': 300,
                 'source:client': 100, 'source:request': 100, 'source:request-none': 30, 'source:none': 30,
                 'cap-reached': 20, 'jitter:nonzero': 100, 'jitter:fresh-value-per-draw': 100,
-                'jitter:fresh:>=2-pauses-in-one-request': 20, 'session:followup-requests': 100, 'sleeps-observed': 300}}
+                'jitter:fresh:>=2-pauses-in-one-request': 20, 'entry:send': 300, 'entry:call': 100, 'entry:dunder-call': 100,
+                'entry:proxy': 100, 'entry:notify': 20, 'back-below-the-cap': 20, 'session:followup-requests': 100, 'sleeps-observed': 300}}
 
 CODES = {'none': None, 'empty': set(), 'one': {2001}, 'several': {2001, 2002}}
 EXCS = {'none': None, 'empty': set(), 'one': {ConnectionError}, 'several': {ConnectionError, TimeoutError}}
@@ -182,6 +183,9 @@ def run_session(ctx, spec, codes, excs, is_async, requests):
         ctx.hit('jitter:nonzero')
     if spec.get('max_value') is not None and any(abs(d - spec['max_value']) < 1e-12 for d in delays_full):
         ctx.hit('cap-reached')
+        capped = [abs(d - spec['max_value']) < 1e-12 for d in delays_full]
+        if any(capped[i] and not capped[j] for i in range(len(capped)) for j in range(i + 1, len(capped))):
+            ctx.hit('back-below-the-cap')
     for ridx, r in enumerate(requests):
         kind, source, script = r['kind'], r['source'], r['script']
         if ridx:
@@ -201,15 +205,33 @@ def run_session(ctx, spec, codes, excs, is_async, requests):
             kw['_retry_strategy'] = rs
         elif source == 'request-none':
             kw['_retry_strategy'] = None
+        entry = r.get('entry', 'send')
+        if kw:
+            entry = 'send'            # only send() takes a per-request strategy
+        if kind == 'batch' and entry != 'send':
+            entry = 'call'
+        if kind == 'notification' and entry != 'send':
+            entry = 'notify'
+        ctx.hit('entry:' + entry)
         if kind == 'single':
             req = v20.Request('m', [ridx], id=7 + ridx)
-            st, out = clientside.outcome_of(lambda: client.send(req, **kw), is_async)
+            fn = {'send': lambda: client.send(req, **kw), 'call': lambda: client.call('m', ridx),
+                  'dunder-call': lambda: client('m', ridx), 'proxy': lambda: client.proxy.m(ridx)}[entry]
+            st, out = clientside.outcome_of(fn, is_async)
         elif kind == 'batch':
             req = v20.BatchRequest(v20.Request('a', [1], id=1), v20.Request('b', [2], id=2), v20.Request('n', [3]))
-            st, out = clientside.outcome_of(lambda: client.batch.send(req, **kw), is_async)
+            if entry == 'send':
+                st, out = clientside.outcome_of(lambda: client.batch.send(req, **kw), is_async)
+            else:
+                entry = 'call'
+                st, out = clientside.outcome_of(lambda: client.batch.add('a', 1).add('b', 2).notify('n', 3).call(), is_async)
         else:
             req = v20.Request('n', [ridx], id=None)
-            st, out = clientside.outcome_of(lambda: client.send(req, **kw), is_async)
+            if entry == 'send':
+                st, out = clientside.outcome_of(lambda: client.send(req, **kw), is_async)
+            else:
+                entry = 'notify'
+                st, out = clientside.outcome_of(lambda: client.notify('n', ridx), is_async)
         observed = list(EVENTS)
         want_events, final = model.run(effective, CODES[codes], exc_types, model_outcomes(script), kind == 'notification')
         consumed = tuple(script[:final + 1])
@@ -274,23 +296,29 @@ def run_session(ctx, spec, codes, excs, is_async, requests):
                 ctx.violation('notification-did-not-return-none' + (f':raised-{type(out).__name__}' if st == 'exc' else ''), fam, cls, **wit)
                 continue
         else:
-            if st != 'ret' or out is None:
-                ctx.violation(f'last-response-not-returned:{type(out).__name__}', fam, cls, **wit)
-                continue
             want_ok = last == 'ok'
-            if out.is_success != want_ok:
-                ctx.violation('returned-response-is-not-the-last-attempts', fam, cls, **wit)
-                continue
-            if want_ok:
-                got = list(out.result) if kind == 'batch' else [out.result]
-                if any(g != f'ok{final}' for g in got):
-                    ctx.violation('returned-response-is-not-the-last-attempts', fam, cls, **wit)
-                    continue
+            # what reached the caller, whatever the entry point: ('ok', results) / ('error', code, data) / ('other', ...)
+            if st == 'exc':
+                got = ('error', out.code, out.data) if isinstance(out, pjrpc.exceptions.JsonRpcError) and entry != 'send' else ('other', type(out).__name__)
+            elif entry == 'send':
+                if out is None:
+                    got = ('other', 'None')
+                elif out.is_success:
+                    got = ('ok', list(out.result) if kind == 'batch' else [out.result])
+                else:
+                    got = ('error', out.error.code, out.error.data)
             else:
-                err = out.error
-                if err.code != (2001 if last == 'listed' else 999) or err.data != final:
-                    ctx.violation('returned-response-is-not-the-last-attempts', fam, cls, **wit)
-                    continue
+                got = ('ok', list(out) if kind == 'batch' and isinstance(out, (tuple, list)) else [out])
+            if want_ok:
+                want = ('ok', [f'ok{final}'] * (2 if kind == 'batch' else 1))
+            else:
+                want = ('error', 2001 if last == 'listed' else 999, final)
+            if got != want:
+                if got[0] == 'other':
+                    ctx.violation(f'last-response-not-returned:{got[1]}', fam, cls, **wit)
+                else:
+                    ctx.violation('returned-response-is-not-the-last-attempts', fam, cls, reached_caller=list(got), expected=list(want), **wit)
+                continue
         ctx.ok(fam, cls, sample=wit)
 
 
@@ -308,6 +336,11 @@ def backoff_grid(n):
             out.append({'family': 'exponential', 'attempts': n, 'base': 2.0, 'factor': 3.0, 'max_value': mx, 'jitter': j})
             out.append({'family': 'fibonacci', 'attempts': n, 'multiplier': 1.0, 'max_value': mx, 'jitter': j})
             out.append({'family': 'fibonacci', 'attempts': n, 'multiplier': 0.75, 'max_value': mx, 'jitter': j})
+    # delays that come back below the cap after having reached it: a decaying factor, a jitter larger than the step
+    out.append({'family': 'exponential', 'attempts': n, 'base': 8.0, 'factor': 0.5, 'max_value': 3.0, 'jitter': 0.0})
+    out.append({'family': 'exponential', 'attempts': n, 'base': 8.0, 'factor': 0.5, 'max_value': 3.0, 'jitter': 'fresh'})
+    out.append({'family': 'exponential', 'attempts': n, 'base': 4.0, 'factor': 2.0, 'max_value': 6.0, 'jitter': -3.0})
+    out.append({'family': 'exponential', 'attempts': n, 'base': 1.0, 'factor': 0.25, 'max_value': None, 'jitter': 0.0})
     return out
 
 
@@ -337,12 +370,14 @@ def gen(ctx):
                 source = ('client', 'request', 'client', 'request', 'request-none', 'client', 'none')[(k // 2) % 7]
                 if kind == 'notification' and source == 'request':
                     source = 'client'
-                reqs = [{'kind': kind, 'source': source, 'script': list(script)}]
+                reqs = [{'kind': kind, 'source': source, 'script': list(script),
+                         'entry': ('send', 'call', 'dunder-call', 'proxy', 'send')[(k // 7) % 5]}]
                 # follow-up requests on the same client: each gets a fresh retry budget and fresh pacing
                 if source in ('client', 'request') and (k % 2):
                     for _ in range(1 + (k % 3 == 0)):
                         s2 = list(rng.choice(scripts))
-                        reqs.append({'kind': kinds[rng.randrange(2)], 'source': source, 'script': s2})
+                        reqs.append({'kind': kinds[rng.randrange(2)], 'source': source, 'script': s2,
+                                     'entry': rng.choice(['send', 'call', 'dunder-call', 'proxy'])})
                 yield 'session', dict(spec=spec, codes=codes, excs=excs, is_async=bool((k // 5) % 2), requests=reqs)
 
 
